@@ -74,6 +74,51 @@ def _as_stmts(e):
     return [], e
 
 
+_HOIST = [0]
+
+
+def _hoist_one(top):
+    """If a control node (match / if / block) containing a `return` is nested *inside* expression `top` (e.g. the `?` in
+    `let x = it.next()?.foo() as i8`), cut it out into a fresh `let __hN = <node>;` and return (let statement, True);
+    evaluation order of effect-free operands is all that can change.  Returns (None, False) when nothing is nested."""
+    def find(n, is_top):
+        if not isinstance(n, dict) or n.get("k") == "Closure":
+            return None
+        if not is_top and n.get("k") in ("Match", "If", "Block") and _has_ret(n):
+            return n
+        for key, v in n.items():
+            if key in ("sp", "osp", "pat", "to", "callee"):
+                continue
+            if isinstance(v, dict) and "k" in v:
+                r = find(v, False)
+                if r is not None:
+                    return (n, key, None, r) if not isinstance(r, tuple) else r
+            elif isinstance(v, list):
+                for i, x in enumerate(v):
+                    if isinstance(x, dict) and "k" in x:
+                        r = find(x, False)
+                        if r is not None:
+                            return (n, key, i, r) if not isinstance(r, tuple) else r
+                    elif isinstance(x, dict) and "body" in x and "pat" in x:      # match arm record
+                        pass
+        return None
+    r = find(top, True)
+    if r is None:
+        return None, False
+    parent, key, idx, node = r
+    _HOIST[0] += 1
+    lid = 9000000 + _HOIST[0]
+    name = "__h%d" % _HOIST[0]
+    path = {"k": "Path", "to": {"res": "local", "name": name, "id": lid}, "ty": node.get("ty"), "sp": node.get("sp")}
+    if idx is None:
+        parent[key] = path
+    else:
+        parent[key][idx] = path
+    let = {"k": "SLet", "pat": {"k": "PBind", "name": name, "id": lid, "mode": "BindingMode(No, Not)", "sub": None, "ty": node.get("ty"), "sp": node.get("sp")},
+           "init": node, "els": None, "sp": node.get("sp")}
+    return let, True
+
+
 def elim_block(stmts, tail, like, ty):
     """Return (stmts', tail') equivalent to `{ stmts; tail }` as the *value of the function* with every `return e`
     turned into the value e.  Raises Cannot."""
@@ -82,6 +127,12 @@ def elim_block(stmts, tail, like, ty):
             continue
         head, rest = stmts[:i], stmts[i + 1:]
         k = st.get("k")
+        # a `return` buried inside an operand: hoist the enclosing control node into its own let first
+        top = st.get("init") if k == "SLet" else (st["e"] if k == "SSemi" else st)
+        if isinstance(top, dict) and not (k == "SLet" and st.get("els") is not None):
+            let, did = _hoist_one(top)
+            if did:
+                return (lambda r_: (head + r_[0], r_[1]))(elim_block([let, st] + rest, tail, like, ty))
         e = st["e"] if k == "SSemi" else (st if k != "SLet" else None)
         if k == "SLet":
             init = st.get("init")
@@ -107,7 +158,25 @@ def elim_block(stmts, tail, like, ty):
                         s2, t2 = elim_block([dict(st, init=b)] + rest, tail, like, ty)
                     arms.append(dict(a, body=_block(s2, t2, like, ty)))
                 return head, dict(init, arms=arms, ty=ty)
-            raise Cannot("return inside a let initialiser")
+            if els is None and init is not None and init.get("k") == "If" and not _has_ret(init["cond"]):
+                brs = {}
+                for key in ("then", "else"):
+                    b = init.get(key)
+                    if b is None:
+                        raise Cannot("let from an if without else")
+                    if hir.diverges(b) or b.get("k") == "Ret":
+                        bs, bt = _as_stmts(b)
+                        s2, t2 = elim_block(bs, bt, like, ty)
+                    else:
+                        bs, bt = _as_stmts(b)
+                        s2, t2 = elim_block(bs + [dict(st, init=bt if bt is not None else _unit(like))] + rest, tail, like, ty)
+                    brs[key] = _block(s2, t2, like, ty)
+                return head, dict(init, then=brs["then"], **{"else": brs["else"]}, ty=ty)
+            if els is None and init is not None and init.get("k") == "Block" and not init.get("label"):
+                bs, bt = _as_stmts(init)
+                s2, t2 = elim_block(bs + [dict(st, init=bt if bt is not None else _unit(like))] + rest, tail, like, ty)
+                return head + s2, t2
+            raise Cannot("return inside a let initialiser (%s)" % (init or {}).get("k"))
         e0 = e
         if e0.get("k") == "Ret":
             v = e0.get("e")
@@ -148,11 +217,32 @@ def elim_block(stmts, tail, like, ty):
             return head + s1, t1
         raise Cannot("return inside %s" % e0.get("k"))
     if tail is not None and _has_ret(tail):
-        s1, t1 = elim_block([tail], None, like, ty) if tail.get("k") in ("Ret", "If", "Match", "Block") else (None, None)
-        if s1 is None:
-            raise Cannot("return inside tail %s" % tail.get("k"))
-        return list(stmts) + s1, t1
+        return list(stmts), elim_value(tail, like, ty)
     return list(stmts), tail
+
+
+def elim_value(e, like, ty):
+    """expression in value position (its value is the function's value) with every `return x` turned into x"""
+    if e is None or not _has_ret(e):
+        return e
+    k = e.get("k")
+    if k in ("Use", "Type"):
+        return dict(e, e=elim_value(e["e"], like, ty))
+    if k == "Ret":
+        v = e.get("e")
+        return elim_value(v, like, ty) if v is not None else _unit(like)
+    if k == "Block" and not e.get("label"):
+        s1, t1 = elim_block(list(e.get("stmts") or []), e.get("expr"), like, ty)
+        return _block(s1, t1, e, ty)
+    if k == "If" and not _has_ret(e["cond"]):
+        return dict(e, then=elim_value(e["then"], like, ty), **{"else": elim_value(e.get("else"), like, ty) if e.get("else") is not None else None}, ty=ty)
+    if k == "Match" and not _has_ret(e["e"]):
+        return dict(e, arms=[dict(a, body=elim_value(a["body"], like, ty)) for a in e["arms"]], ty=ty)
+    let, did = _hoist_one(e)
+    if not did:
+        raise Cannot("return inside %s in value position" % k)
+    s1, t1 = elim_block([let], e, like, ty)
+    return _block(s1, t1, e, ty)
 
 
 def body_as_value(fn_hir, like):
@@ -338,6 +428,131 @@ class HirInliner:
                     # an expression statement `helper(..);` keeps its SSemi wrapper (handled by the parent)
                     return rep
         return None
+
+
+# ---------------------------------------------------------------------------
+# HIR: unrolling of `for PAT in [literal, array]` (used on demand by rules whose oracle is per element)
+
+def _bound_ids(n):
+    out = []
+    stack = [n]
+    while stack:
+        x = stack.pop()
+        if isinstance(x, list):
+            stack.extend(x)
+        elif isinstance(x, dict):
+            if x.get("k") == "PBind" and "id" in x:
+                out.append(x["id"])
+            stack.extend(v for v in x.values() if isinstance(v, (dict, list)))
+    return out
+
+
+def _rename_bound(n, idmap, namemap, ids):
+    if isinstance(n, list):
+        for x in n:
+            _rename_bound(x, idmap, namemap, ids)
+        return
+    if not isinstance(n, dict):
+        return
+    if n.get("k") == "PBind" and n.get("id") in ids:
+        n["name"] = namemap.get(n["name"], n["name"])
+        n["id"] = idmap(n["id"])
+    to = n.get("to")
+    if isinstance(to, dict) and to.get("res") == "local" and to.get("id") in ids:
+        to["name"] = namemap.get(to["name"], to["name"])
+        to["id"] = idmap(to["id"])
+    for key, v in n.items():
+        if isinstance(v, (dict, list)) and key != "to":
+            _rename_bound(v, idmap, namemap, ids)
+
+
+def unroll_literal_loops(fn_hir, limit=16):
+    """Deep copy of fn_hir in which every `for PAT in ARRAY { body }` whose ARRAY is an array literal (directly, or a
+    single-assignment local initialised with one) of at most `limit` elements and whose body contains no break/continue
+    is replaced by `{ { let PAT = e1; body } { let PAT = e2; body } ... }` with fresh local ids per copy."""
+    h = copy.deepcopy(fn_hir)
+    env = hir.Env(h, None)
+    counter = [0]
+
+    def array_of(e):
+        e0 = hir.strip(e)
+        if e0.get("k") == "Call" and str(hir.callee_of(e0) or "").endswith("IntoIterator::into_iter") and e0.get("args"):
+            e0 = hir.strip(e0["args"][0])
+        if e0.get("k") == "Path" and e0["to"].get("res") == "local" and env.is_single(e0["to"]["id"]):
+            e0 = hir.strip(env.defs[e0["to"]["id"]])
+        if e0.get("k") == "Array" and 0 < len(e0["elems"]) <= limit:
+            return e0["elems"]
+        return None
+
+    def rewrite(n):
+        if isinstance(n, list):
+            for i, x in enumerate(n):
+                r = rewrite(x)
+                if r is not None:
+                    n[i] = r
+            return None
+        if not isinstance(n, dict):
+            return None
+        for key, v in list(n.items()):
+            if isinstance(v, (dict, list)) and key not in ("sp", "osp"):
+                r = rewrite(v)
+                if r is not None:
+                    n[key] = r
+        if n.get("k") == "Match" and n.get("src") == "ForLoopDesugar":
+            elems = array_of(n["e"])
+            if elems is None:
+                return None
+            loop = None
+            for c, _ in hir.walk(n):
+                if c.get("k") == "Loop":
+                    loop = c
+                    break
+            inner = None
+            for c, _ in hir.walk(loop):
+                if c.get("k") == "Match" and c.get("src") == "ForLoopDesugar" and c is not n:
+                    inner = c
+                    break
+            if inner is None:
+                return None
+            def payload(p_):
+                if p_.get("k") == "PTupleStruct" and len(p_.get("pats") or ()) == 1:
+                    return p_["pats"][0]
+                if p_.get("k") == "PStruct" and len(p_.get("fields") or ()) == 1:
+                    return p_["fields"][0]["pat"]
+                return None
+            some = [a for a in inner["arms"] if payload(a["pat"]) is not None]
+            if len(some) != 1:
+                return None
+            pat, body = payload(some[0]["pat"]), some[0]["body"]
+            for c, _ in hir.walk(body):
+                if c.get("k") == "Continue" or (c.get("k") == "Break" and "ForLoop" not in str(c.get("mac", ""))):
+                    return None
+                if c.get("k") == "Ret":
+                    return None
+            copies = []
+            for el in elems:
+                counter[0] += 1
+                k = counter[0]
+                b2, p2 = copy.deepcopy(body), copy.deepcopy(pat)
+                inner_ids = set(_bound_ids(b2)) | set(_bound_ids(p2))
+                names = {nm: "%s'u%d" % (nm, k) for nm in _local_names({"params": [], "body": b2}) | set(hir.pat_names(p2))}
+                base = 5000000 + 10000 * k
+                idm = (lambda i, base=base, inner_ids=inner_ids: base + i if i in inner_ids else i)
+                # names are renamed only for locals bound inside the copy
+                _rename_bound(b2, idm, names, inner_ids)
+                _rename_bound(p2, idm, names, inner_ids)
+                let = {"k": "SLet", "pat": p2, "init": copy.deepcopy(el), "els": None, "sp": n.get("sp")}
+                bs, bt = _as_stmts(b2)
+                if bt is not None:
+                    bs = bs + [{"k": "SSemi", "e": bt}]
+                copies.append({"k": "Block", "stmts": [let] + bs, "expr": None, "unsafe": None, "label": None, "ty": "()", "sp": n.get("sp"),
+                               "unrolled": True})
+            return {"k": "Block", "stmts": copies, "expr": None, "unsafe": None, "label": None, "ty": "()", "sp": n.get("sp"), "unrolled": True}
+        return None
+    r = rewrite(h["body"])
+    if r is not None:
+        h["body"] = r
+    return h
 
 
 # ---------------------------------------------------------------------------
